@@ -942,6 +942,8 @@ def solve_main(objfun, x0, argsf, xl, xu, projections, npt, rhobeg, rhoend, maxf
 
     # Quit & return the important information
     x, rvec, obj, jacmin, nsamples, x_eval_num, jac_eval_nums = control.model.get_final_results()
+    if jac_eval_nums is None:
+        jacmin = None  # no interpolation has succeeded yet: model_jac is still the all-zero placeholder, not a Jacobian estimate
     if do_logging:
         module_logger.debug("At return from DFO-LS, number of function evals = %i" % nf)
         module_logger.debug("Smallest objective value = %.15g at x = " % obj + str(x))
